@@ -160,6 +160,9 @@ MaskCompOK(r) == /\ r.exc = 0
                  /\ r.out = r.want_from_elements
                  /\ r.wrote = <<SelIdx(r.mask)[2]>>
 
+\* a view derived from a row still shows the row's elements after the matrix / variable array has been released
+RowViewOK(r) == r.got = r.want
+
 \* a consumer of a plain buffer and a strided array: refused, or served with the array's own elements (and a writer leaves
 \* the other components alone)
 SimpleBufOK(r) == /\ (r.exc = 1 \/ r.got = r.want)
